@@ -728,3 +728,252 @@ pub fn gcd_model_valid8() {
     vcover!();
     std::mem::forget((a, b, g, m));
 }
+
+// ===========================================================================
+// C09 - integers <-> text.  The digit loops of to_string_base / from_string_base are real; the
+// arithmetic they call (`%`, `/=`, `*=`, `+=`, BigNum::new) is replaced by the one-limb models.
+// ===========================================================================
+fn digit_char(d: u32) -> u8 {
+    if d < 10 {
+        b'0' + d as u8
+    } else {
+        b'A' + (d - 10) as u8
+    }
+}
+
+/// conventional rendering of sign/magnitude v (< base^3) in `base`, most significant digit first
+fn ref_render3(pos: bool, v: u32, base: u32, out: &mut [u8; 4]) -> usize {
+    let (d2, d1, d0) = (v / (base * base), (v / base) % base, v % base);
+    let mut n = 0;
+    if !pos {
+        out[n] = b'-';
+        n += 1;
+    }
+    if d2 != 0 {
+        out[n] = digit_char(d2);
+        n += 1;
+    }
+    if d2 != 0 || d1 != 0 {
+        out[n] = digit_char(d1);
+        n += 1;
+    }
+    out[n] = digit_char(d0);
+    n + 1
+}
+
+fn to_base_body(base: u32, v: u32, pos: bool) {
+    let x = BigNum { pos: pos || v == 0, val: vec![v] };
+    let s = x.to_string_base(base as usize).unwrap();
+    let mut want = [0u8; 4];
+    let n = ref_render3(pos || v == 0, v, base, &mut want);
+    let b = s.as_bytes();
+    assert!(b.len() == n, "rendering has the wrong number of characters");
+    let mut i = 0;
+    while i < 4 {
+        assert!(i >= n || b[i] == want[i], "rendering differs from the conventional one");
+        i += 1;
+    }
+    std::mem::forget((x, s));
+}
+macro_rules! to_base {
+    ($name:ident, $base:expr) => {
+        #[cfg_attr(kani, kani::proof)]
+        #[cfg_attr(kani, kani::stub(BigNum::rem, m_rem))]
+        #[cfg_attr(kani, kani::stub(BigNum::div, m_div))]
+        #[cfg_attr(kani, kani::stub(BigNum::new, m_new1))]
+        pub fn $name() {
+            let (v, pos) = (any_u32(), any_bool());
+            assume(v < $base * $base);
+            to_base_body($base, v, pos);
+            vcover!();
+        }
+    };
+}
+// @h prop=C09 unwind=4 timeout=600 mem=12 stubs=BigNum::rem,div,new->one-limb_models what=2_digits:to_string_base(2):all_values<2^3,both_signs:conventional_digits,leading_minus,no_leading_zero,"0"
+to_base!(to_base_2, 2u32);
+// @h prop=C09 unwind=4 timeout=600 mem=12 stubs=BigNum::rem,div,new->one-limb_models what=2_digits:to_string_base(10):all_values<1000,both_signs
+to_base!(to_base_10, 10u32);
+// @h prop=C09 unwind=4 timeout=600 mem=12 stubs=BigNum::rem,div,new->one-limb_models what=2_digits:to_string_base(16):all_values<4096
+to_base!(to_base_16, 16u32);
+// @h prop=C09 unwind=4 timeout=600 mem=12 stubs=BigNum::rem,div,new->one-limb_models what=2_digits:to_string_base(36):all_values<46656(digits_up_to_Z)
+to_base!(to_base_36, 36u32);
+
+// @h prop=C09 unwind=6 timeout=900 mem=12 tier=thorough kind=stretch what=to_string_base(symbolic_base_2..36):values<base^3
+#[cfg_attr(kani, kani::proof)]
+#[cfg_attr(kani, kani::stub(BigNum::rem, m_rem))]
+#[cfg_attr(kani, kani::stub(BigNum::div, m_div))]
+#[cfg_attr(kani, kani::stub(BigNum::new, m_new1))]
+pub fn to_base_sym() {
+    let (base, v, pos) = (any_u8() as u32, any_u32(), any_bool());
+    assume(base >= 2 && base <= 36);
+    assume(v < base * base * base);
+    to_base_body(base, v, pos);
+    vcover!();
+}
+
+// @h prop=C09 unwind=4 timeout=120 what=to_string_base/from_string_base_reject_base_0_and_bases_above_36
+#[cfg_attr(kani, kani::proof)]
+pub fn base_range() {
+    let base = any_usize();
+    assume(base == 0 || base > 36);
+    let x = BigNum { pos: true, val: vec![5] };
+    assert!(matches!(x.to_string_base(base), Err(Error::BaseSizeError(b)) if b == base));
+    assert!(matches!(BigNum::from_string_base(String::new(), base), Err(Error::BaseSizeError(b)) if b == base));
+    vcover!();
+    std::mem::forget(x);
+}
+
+fn digit_val(c: u8) -> Option<u32> {
+    if c >= b'0' && c <= b'9' {
+        Some((c - b'0') as u32)
+    } else if c >= b'A' && c <= b'Z' {
+        Some((c - b'A') as u32 + 10)
+    } else {
+        None
+    }
+}
+
+/// from_string_base on an ASCII text of exactly L characters after an optional '-'
+fn from_base_body<const L: usize>(base: u32, neg: bool, d: [u8; L]) {
+    let mut bytes: Vec<u8> = Vec::with_capacity(L + 1);
+    if neg {
+        bytes.push(b'-');
+    }
+    let mut i = 0;
+    let mut bad = false;
+    let mut over = false;
+    let mut want: u64 = 0;
+    while i < L {
+        bytes.push(d[i]);
+        match digit_val(d[i]) {
+            Some(k) => {
+                if k >= base {
+                    over = true;
+                }
+                want = want * (base as u64) + k as u64;
+            }
+            None => bad = true,
+        }
+        i += 1;
+    }
+    // digits not below the base are documented as unchecked: outside the claim
+    assume(bad || !over);
+    // a '-' in first position IS the optional minus (covered by neg = true)
+    assume(neg || d[0] != b'-');
+    let s = unsafe { String::from_utf8_unchecked(bytes) };
+    let r = BigNum::from_string_base(s, base as usize);
+    match r {
+        Ok(x) => {
+            assert!(!bad, "text with a character outside 0-9A-Z was accepted");
+            assert!(x.val.len() == 1 && x.val[0] as u64 == want, "value read differs from Horner's rule");
+            assert!(x.pos == !neg, "sign read wrongly");
+            std::mem::forget(x);
+        }
+        Err(e) => {
+            assert!(bad && matches!(e, Error::ParseError), "well-formed text was rejected");
+        }
+    }
+}
+macro_rules! from_base {
+    ($name:ident, $base:expr, $l:expr) => {
+        #[cfg_attr(kani, kani::proof)]
+        #[cfg_attr(kani, kani::stub(BigNum::mul, m_mul))]
+        #[cfg_attr(kani, kani::stub(BigNum::add, m_add))]
+        #[cfg_attr(kani, kani::stub(BigNum::new, m_new1))]
+        pub fn $name() {
+            let neg = any_bool();
+            let mut d = [0u8; $l];
+            let mut i = 0;
+            while i < $l {
+                d[i] = any_u8();
+                assume(d[i] < 0x80);
+                i += 1;
+            }
+            from_base_body::<$l>($base, neg, d);
+            vcover!();
+        }
+    };
+}
+// @h prop=C09 unwind=7 timeout=600 mem=12 stubs=BigNum::mul,add,new->one-limb_models what=from_string_base(10):every_ASCII_text_of_3_characters(+optional_minus):Horner_value_or_ParseError
+from_base!(from_base_10_3, 10u32, 3);
+// @h prop=C09 unwind=7 timeout=600 mem=12 stubs=BigNum::mul,add,new->one-limb_models what=from_string_base(36):3_characters
+from_base!(from_base_36_3, 36u32, 3);
+// @h prop=C09 unwind=7 timeout=600 mem=12 stubs=BigNum::mul,add,new->one-limb_models what=from_string_base(2):4_characters
+from_base!(from_base_2_4, 2u32, 4);
+// @h prop=C09 unwind=7 timeout=600 mem=12 stubs=BigNum::mul,add,new->one-limb_models what=from_string_base(16):1_character
+from_base!(from_base_16_1, 16u32, 1);
+
+// round trip through the real text: render (real loop) then read back (real loop)
+macro_rules! base_roundtrip {
+    ($name:ident, $base:expr) => {
+        #[cfg_attr(kani, kani::proof)]
+        #[cfg_attr(kani, kani::stub(BigNum::rem, m_rem))]
+        #[cfg_attr(kani, kani::stub(BigNum::div, m_div))]
+        #[cfg_attr(kani, kani::stub(BigNum::mul, m_mul))]
+        #[cfg_attr(kani, kani::stub(BigNum::add, m_add))]
+        #[cfg_attr(kani, kani::stub(BigNum::new, m_new1))]
+        pub fn $name() {
+            let (v, pos) = (any_u32(), any_bool());
+            assume(v < $base * $base * $base);
+            let x = BigNum { pos: pos || v == 0, val: vec![v] };
+            let s = x.to_string_base($base as usize).unwrap();
+            let y = BigNum::from_string_base(s, $base as usize).unwrap();
+            assert!(y.val.len() == 1 && y.val[0] == v && y.pos == x.pos, "reading the rendering back gives a different integer");
+            vcover!();
+            std::mem::forget((x, y));
+        }
+    };
+}
+// @h prop=C09 unwind=7 timeout=900 mem=12 stubs=BigNum::rem,div,mul,add,new->one-limb_models what=render_then_read_back,base_10,values<1000,both_signs
+base_roundtrip!(base_roundtrip_10, 10u32);
+// @h prop=C09 unwind=7 timeout=900 mem=12 tier=thorough stubs=BigNum::rem,div,mul,add,new->one-limb_models what=render_then_read_back,base_36
+base_roundtrip!(base_roundtrip_36, 36u32);
+// @h prop=C09 unwind=7 timeout=900 mem=12 tier=thorough stubs=BigNum::rem,div,mul,add,new->one-limb_models what=render_then_read_back,base_2
+base_roundtrip!(base_roundtrip_2, 2u32);
+
+// vacuity twin (must FAIL)
+// @h prop=C09 unwind=6 timeout=600 mem=12 kind=twin
+#[cfg_attr(kani, kani::proof)]
+#[cfg_attr(kani, kani::stub(BigNum::rem, m_rem))]
+#[cfg_attr(kani, kani::stub(BigNum::div, m_div))]
+#[cfg_attr(kani, kani::stub(BigNum::new, m_new1))]
+pub fn twin_to_base() {
+    let (v, pos) = (any_u32(), any_bool());
+    assume(v < 1000);
+    to_base_body(10, v, pos);
+    assert!(false);
+}
+
+// probe: one digit, non-negative
+// @h prop=C09 unwind=3 uw=memcmp.0:6 timeout=600 mem=12 kind=stretch what=probe_to_string_base_one_digit
+#[cfg_attr(kani, kani::proof)]
+#[cfg_attr(kani, kani::stub(BigNum::rem, m_rem))]
+#[cfg_attr(kani, kani::stub(BigNum::div, m_div))]
+#[cfg_attr(kani, kani::stub(BigNum::new, m_new1))]
+pub fn to_base_1digit() {
+    let (base, v) = (any_u8() as u32, any_u32());
+    assume(base >= 2 && base <= 36 && v < base && v != 0);
+    let x = BigNum { pos: true, val: vec![v] };
+    let s = x.to_string_base(base as usize).unwrap();
+    let b = s.as_bytes();
+    assert!(b.len() == 1 && b[0] == digit_char(v));
+    vcover!();
+    std::mem::forget((x, s));
+}
+
+// @h prop=C09 unwind=4 uw=memcmp.0:6 timeout=900 mem=12 kind=stretch what=probe_to_string_base_two_digits
+#[cfg_attr(kani, kani::proof)]
+#[cfg_attr(kani, kani::stub(BigNum::rem, m_rem))]
+#[cfg_attr(kani, kani::stub(BigNum::div, m_div))]
+#[cfg_attr(kani, kani::stub(BigNum::new, m_new1))]
+pub fn to_base_2digit() {
+    let (base, v) = (any_u8() as u32, any_u32());
+    assume(base >= 2 && base <= 36 && v >= base && v < base * base);
+    let x = BigNum { pos: true, val: vec![v] };
+    let s = x.to_string_base(base as usize).unwrap();
+    let b = s.as_bytes();
+    let (q, r) = crate::number::big_number::verif_bn::lemma_divrem(v, base);
+    assert!(b.len() == 2 && b[0] == digit_char(q) && b[1] == digit_char(r));
+    vcover!();
+    std::mem::forget((x, s));
+}
